@@ -201,9 +201,20 @@ def _const_flt(val):
     return f
 
 
-def _checked(m, st, name, a):
-    """usize::checked_sub / checked_add: Some(result) unless the operation overflows"""
-    flag = ('op', 'ovf_' + name, (a[0], a[1], ('str', 'usize')))
+def _int_kind(callee):
+    import re
+    mt = re.search(r'<impl (\w+)>', callee.get('full', '') or '')
+    return mt.group(1) if mt else 'usize'
+
+
+def _checked(m, st, name, a, callee=None):
+    """checked_sub / checked_add: Some(result) unless the operation overflows"""
+    kind = _int_kind(callee or {})
+    if name == 'sub' and kind.startswith('u'):
+        # unsigned: a - b overflows exactly when a < b
+        flag = op('lt', a[0], a[1])
+    else:
+        flag = ('op', 'ovf_' + name, (a[0], a[1], ('str', kind)))
     out = []
     for s2, b in m.sx.fork_bool(st, flag):
         out.append((s2, NONE if b else some(op(name, a[0], a[1]))))
@@ -769,6 +780,9 @@ def _into(m, st, fr, callee, args, dest_ty, term):
     if conv is None:
         return args[0]
     if conv is False:
+        w = _prim_widen(args[0], src, dst)
+        if w is not None:
+            return w
         return ('unknown', 'Into %s -> %s' % (src and src.get('s'), dst and dst.get('s')))
     sx = m.sx
     insts = sx.facts.root_instance(conv)
@@ -777,12 +791,28 @@ def _into(m, st, fr, callee, args, dest_ty, term):
     return [(st, None)]
 
 
+def _prim_widen(v, src, dst):
+    """core's lossless From impls between primitives are the `as` casts (core/convert/num.rs)"""
+    if src is None or dst is None:
+        return None
+    if is_float(src) and is_float(dst):
+        return op('f2f', v)
+    if is_int(src) and is_float(dst):
+        return op('i2f', v)
+    if is_int(src) and is_int(dst):
+        return v if v[0] == 'int' else op('i2i', v)
+    return None
+
+
 def _from(m, st, fr, callee, args, dest_ty, term):
     targs = callee.get('targs', [])
     dst = targs[0] if targs else None
     src = targs[1] if len(targs) > 1 else None
     if src is not None and dst is not None and src.get('s') == dst.get('s'):
         return args[0]
+    w = _prim_widen(args[0], src, dst)
+    if w is not None:
+        return w
     return ('unknown', 'From %s -> %s' % (src and src.get('s'), dst and dst.get('s')))
 
 
@@ -941,7 +971,25 @@ def _lazy_get(m, st, fr, callee, args, dest_ty, term):
 # ---------------------------------------------------------------------------------------
 # iterators and containers
 
+def _is_iterator_value(m, v):
+    from . import iters
+    while v[0] == 'op' and v[1] == 'ref':
+        v = v[2][0]
+    if iters.kind_of(v) is not None:
+        return True
+    if v[0] == 'sym':
+        d = m.sx.symdef.get(v[1])
+        return d is not None and d[0] == 'call' and d[1] in ('into_iter', 'advance', 'copied')
+    return False
+
+
 def _into_iter(m, st, fr, callee, args, dest_ty, term):
+    from . import iters
+    if iters.kind_of(args[0]) is not None:
+        return args[0]      # `impl<I: Iterator> IntoIterator for I` is the identity
+    targs = callee.get('targs', [])
+    if targs and targs[0].get('k') == 'array' and args[0][0] == 'tuple':
+        return iters.mk('Array', args[0], T.mk_int(0))
     src = m.sx.resolve_deep(st, args[0])
     it = m.sx.fresh('iter', None)
     m.sx.symdef[it[1]] = ('call', 'into_iter', (src,))
@@ -950,31 +998,56 @@ def _into_iter(m, st, fr, callee, args, dest_ty, term):
 
 
 def _iter_next(m, st, fr, callee, args, dest_ty, term):
-    # Iterator::next: either exhausted or yields one fresh element; the iterator cell advances
+    # Iterator::next: either exhausted or yields one element; the iterator cell advances
+    from . import iters
+    sx = m.sx
     itref = args[0]
-    it = m.deref(st, itref, 1)
     elem_ty = None
     if dest_ty is not None and dest_ty.get('args'):
         elem_ty = dest_ty['args'][0]
-    s_none = st.copy()
-    s_none.events.append(('next', it, None))
-    e = m.sx.fresh('elem', elem_ty)
-    if elem_ty is not None and elem_ty.get('k') == 'ref':
-        cid = m.sx.new_heap(None, elem_ty.get('inner'))
-        inner = m.sx.named(e[1] + '*', elem_ty.get('inner'))
-        st.cells[cid] = inner
-        ev = ('ref', cid, ())
-        st.events.append(('next', it, inner))
-    else:
-        ev = e
-        st.events.append(('next', it, e))
-    # the iterator advances: same identity, new position
-    nit = m.sx.fresh('iter', None)
-    m.sx.symdef[nit[1]] = ('call', 'advance', (it,))
-    if itref[0] == 'ref':
-        m.sx.write_cell(st, itref[1], itref[2], nit)
-        s_none.cells = dict(s_none.cells)
-    return [(st, some(ev)), (s_none, NONE)]
+    dest = sx.resolve_place(st, fr, term['dest'])
+    target = term['target']
+
+    def k(s, e, nit):
+        return sx.continue_with(s, some(e) if e is not None else NONE, dest, target)
+    if itref[0] != 'ref':
+        raise_unsupported('next() on a non-reference %s' % T.show(itref)[:60])
+    states = iters.step(sx, st, itref, k, elem_ty)
+    return [(s, None) for s in states]
+
+
+def _iter_map(m, st, fr, callee, args, dest_ty, term):
+    from . import iters
+    return iters.mk('Map', args[0], args[1])
+
+
+def _iter_copied(m, st, fr, callee, args, dest_ty, term):
+    from . import iters
+    if iters.kind_of(args[0]) is not None:
+        return iters.mk('Copied', args[0])
+    return _iter_adapter('copied')(m, st, fr, callee, args, dest_ty, term)
+
+
+def _iter_zip(m, st, fr, callee, args, dest_ty, term):
+    from . import iters
+    other = args[1]
+    if not _is_iterator_value(m, other):
+        other = _into_iter(m, st, fr, {'targs': (callee.get('targs') or [None, None])[1:2]}, [other], None, term)
+    return iters.mk('Zip', args[0], other)
+
+
+def _iter_enumerate(m, st, fr, callee, args, dest_ty, term):
+    from . import iters
+    return iters.mk('Enumerate', args[0], T.mk_int(0))
+
+
+def _iter_rev(m, st, fr, callee, args, dest_ty, term):
+    from . import iters
+    return iters.mk('Rev', args[0])
+
+
+def _iter_by_ref(m, st, fr, callee, args, dest_ty, term):
+    return args[0]
 
 
 def _iter_adapter(name):
@@ -990,9 +1063,9 @@ def _iter_adapter(name):
 def _closure_loop(mode):
     def f(m, st, fr, callee, args, dest_ty, term):
         from .loops import closure_loop
-        if mode == 'fold':
-            return closure_loop(m.sx, st, fr, term, args[0], args[2], args[1], 'fold')
-        return closure_loop(m.sx, st, fr, term, args[0], args[1], None, mode)
+        if mode in ('fold', 'try_fold'):
+            return closure_loop(m.sx, st, fr, term, args[0], args[2], args[1], mode, dest_ty)
+        return closure_loop(m.sx, st, fr, term, args[0], args[1], None, mode, dest_ty)
     return f
 
 
@@ -1118,8 +1191,8 @@ MODELS = {
     'num_traits::Bounded::max_value': _max_value,
     'core::num::saturating_sub': lambda m, st, fr, c, a, d, t: op('ssub', a[0], a[1]),
     'core::num::wrapping_sub': lambda m, st, fr, c, a, d, t: op('wsub', a[0], a[1]),
-    'core::num::checked_sub': lambda m, st, fr, c, a, d, t: _checked(m, st, 'sub', a),
-    'core::num::checked_add': lambda m, st, fr, c, a, d, t: _checked(m, st, 'add', a),
+    'core::num::checked_sub': lambda m, st, fr, c, a, d, t: _checked(m, st, 'sub', a, c),
+    'core::num::checked_add': lambda m, st, fr, c, a, d, t: _checked(m, st, 'add', a, c),
     'core::num::abs_diff': lambda m, st, fr, c, a, d, t: op('abs', op('sub', a[0], a[1])),
     'core::num::pow': lambda m, st, fr, c, a, d, t: op('powi', a[0], a[1]),
     'core::f64::powi': _float_fn('powi'),
@@ -1229,8 +1302,18 @@ MODELS = {
     'lazy_static::lazy::Lazy::get': _lazy_get,
     'core::iter::IntoIterator::into_iter': _into_iter,
     'core::iter::Iterator::next': _iter_next,
-    'core::iter::Iterator::copied': _iter_adapter('copied'),
-    'core::iter::Iterator::cloned': _iter_adapter('copied'),
+    'core::iter::Iterator::copied': _iter_copied,
+    'core::iter::Iterator::cloned': _iter_copied,
+    'core::iter::Iterator::map': _iter_map,
+    'core::iter::Iterator::zip': _iter_zip,
+    'core::iter::Iterator::enumerate': _iter_enumerate,
+    'core::iter::Iterator::rev': _iter_rev,
+    'core::iter::Iterator::by_ref': _iter_by_ref,
+    'core::iter::Iterator::try_fold': _closure_loop('try_fold'),
+    'core::iter::Iterator::any': _closure_loop('any'),
+    'core::iter::Iterator::all': _closure_loop('all'),
+    'core::iter::Iterator::find': _closure_loop('find'),
+    'core::iter::Iterator::find_map': _closure_loop('find_map'),
     'core::iter::Iterator::collect': _iter_adapter('collect'),
     'core::iter::Iterator::count': _iter_count,
     'core::iter::Iterator::for_each': _closure_loop('for_each'),
